@@ -13,7 +13,8 @@ META = dict(
            "None); leaves are concrete sentinels (rendering realises symbolic values, and the renderer's control flow depends on "
            "shape only); nesting <= 4, union width <= 3",
     configs="one rich target type: struct of (dataclass with nested dataclass, list of Union[int, dataclass], 3-member union, aliased "
-            "field, tuple layout) + condition with failing/raising predicate + 3-level nested struct (fused chain) + Tuple[int, List[int]]",
+            "field, tuple layout) + condition with failing/raising predicate + 3-level nested struct (fused chain) + Tuple[int, List[int]] + a struct with an aliased required field + a union of two parameterisations of one generic dataclass + "
+            "a set whose construction fails + a struct chain with a required field in the middle; 20 fault sites, one or two at once (thorough: three at once)",
     stubs=["validation hook and predicate raise on the sentinel value 13 (they are inputs of the property)"],
     outside=["iteration order of missing/extra *sets* across processes (hash randomisation)", "symbolic leaf values"],
     assumptions=["oracle: containment rules written from the property statement: each injected fault lists the tokens the text must show, in order"],
